@@ -505,6 +505,9 @@ func (s *Storm) fire(r *rand.Rand, c trace.Call, fail, boom bool, holdUs int64, 
 			if r.Intn(2) == 0 {
 				c.Data[""] = &Key{Id: id}
 			}
+			// (whether such a request is served or turned away with an error is not what the isolation and
+			// capacity properties speak about: the identity oracles leave it alone, the conservation oracles do not)
+			d.healthy = false
 			s.k.Count("requests_with_entries_that_are_not_injected", 1)
 		}
 	}
